@@ -91,7 +91,7 @@ Proof. intros sp s n k v fv C K NB S x acc. simpl. rewrite C, K. destruct k; [co
 (* a malformed value: rejected wherever it stands among the flags, with what was set before it *)
 Lemma bad_value_next : forall sp pre a s n k v post, consumed sp pre a ->
   classify s = WFlag n None -> kind_of sp n = Some k -> k <> KBool -> set_value k v = None ->
-  cl_parse sp (pre ++ s :: v :: post) = PBad a.
+  cl_parse sp (pre ++ s :: v :: post) = PBad (fail_set a n k).
 Proof.
   intros sp pre a s n k v post C Cl K NB S. unfold cl_parse. rewrite C. simpl. rewrite Cl, K.
   destruct k; [congruence| |]; rewrite S; reflexivity.
@@ -99,7 +99,7 @@ Qed.
 
 Lemma bad_value_eq : forall sp pre a s n k v post, consumed sp pre a ->
   classify s = WFlag n (Some v) -> kind_of sp n = Some k -> set_value k v = None ->
-  cl_parse sp (pre ++ s :: post) = PBad a.
+  cl_parse sp (pre ++ s :: post) = PBad (fail_set a n k).
 Proof.
   intros sp pre a s n k v post C Cl K S. unfold cl_parse. rewrite C. simpl. rewrite Cl, K.
   destruct k; simpl in S |- *.
